@@ -40,11 +40,23 @@ HOSTILE = {
     "quoteOnly": ['"', "'", '""'],
     "unicodeEscape": ['"\\u12"', "'\\N{x}'", '"\\x"'],
     "keyword": ["class", "None", "lambda"],
+    "openRanges": ["...3, 4...", "...", "1..., ...2", ":", "...3, ...4"],
+    "stringPrefix": ["u'a'...u'z'", "b'a'", "r'\\d'", "f'{x}'", "u'a'"],
+    "beyondUnicode": ["0x110000", "1114112", "0xffffffff", "'\\U00110000'", "4294967296"],
+    "internalName": ["is valid", "is_valid", "validate", "set property", "_header", "__class__", "__init__", "format"],
+    "hugeDigits": ["0x" + "f" * 4000, "9" * 5000, "-" + "9" * 5000, "0..." + "9" * 5000, "1e" + "9" * 30],
+    "hugeRepetition": ["a{99999999999}", "a{1,99999999999}", "a{65536}"],
+    "indentedLines": ["a\n  b\n c", "a\n\tb\n  c", "(\n", "a,\n b"],
+    "codecName": ["hex", "utf-16", "idna", "rot13", "base64", "zlib", "punycode", "undefined", "utf-7", "utf-32", "unicode_escape",
+                  "utf_8_sig", "charmap", "a\x00b", "utf-16-le"],
+    "repeatedPlaceholder": ["DD.DD.YYYY", "YYYY-YYYY", "hh:hh", "YY YYYY", "%d %d", "MM.MM.MM"],
 }
 RULES = {"Integer": "0...99", "Decimal": "0...99.5", "Choice": "a, b", "Constant": "a", "DateTime": "YYYY-MM-DD", "Pattern": "a*",
          "RegEx": "a+", "Text": ""}
 GOOD = {"Integer": "7", "Decimal": "7.5", "Choice": "a", "Constant": "a", "DateTime": "2020-02-29", "Pattern": "ab", "RegEx": "aa",
         "Text": "t"}
+D_PROPERTIES = ["item delimiter", "quote character", "escape character", "encoding", "allowed characters", "line delimiter", "header",
+                "decimal separator", "thousands separator", "quoting", "skip initial space", "sheet"]
 F_COLUMN = {"marker": 0, "name": 1, "example": 2, "empty": 3, "length": 4, "type": 5, "rule": 6}
 D_COLUMN = {"marker": 0, "name": 1, "value": 2}
 C_COLUMN = {"marker": 0, "description": 1, "type": 2, "rule": 3}
@@ -74,7 +86,9 @@ def build(vec, picks):
             data[0] = text
             continue
         kind, cell = target["cell"]
-        if kind == "D":
+        if kind == "D" and target["type"] in D_PROPERTIES:
+            rows[1] = ["D", target["type"].capitalize(), text]
+        elif kind == "D":
             rows[1][D_COLUMN[cell]] = text
         elif kind == "F":
             rows[2][F_COLUMN[cell]] = text
@@ -126,7 +140,40 @@ def classify(error):
     return "other:%s: %s" % (type(error).__name__, str(error)[:120])
 
 
+class _Exhausted(Exception):
+    pass
+
+
+def _alarm(*_):
+    raise _Exhausted("no answer within 60 s")
+
+
+def _limits():
+    """Once per worker process: an address space of 4 GB and an alarm clock, so that a hostile value that makes the code
+    allocate or compute without bound ends as an observation (MemoryError / no answer) instead of taking the machine down."""
+    import resource
+    import signal
+    if not getattr(_limits, "done", False):
+        soft, hard = resource.getrlimit(resource.RLIMIT_AS)
+        resource.setrlimit(resource.RLIMIT_AS, (4 * 2 ** 30, hard))
+        signal.signal(signal.SIGALRM, _alarm)
+        _limits.done = True
+    return signal
+
+
 def _job(job):
+    signal = _limits()
+    signal.alarm(60)
+    try:
+        return _job_unguarded(job)
+    except _Exhausted as error:
+        vec, picks = job
+        return ["format %s, hostile %s: %s" % (vec["fmt"], [(t["where"], t["cell"], t["type"], c) for t, c in zip(vec["targets"], vec["classes"])], error)]
+    finally:
+        signal.alarm(0)
+
+
+def _job_unguarded(job):
     vec, picks = job
     import cutplace
     fmt, rows, data = build(vec, picks)
@@ -160,6 +207,21 @@ def _job(job):
         except Exception as error:  # noqa
             if classify(error) != "DataError":
                 problems.append("%s: validate() lets escape %s for data %r" % (what, classify(error)[6:], text))
+        # the same data as a file (the declared encoding matters only there)
+        folder = core.workdir("c10file%d" % os.getpid())
+        try:
+            path = os.path.join(folder, "data.txt")
+            with open(path, "wb") as target_file:
+                target_file.write(text.encode("utf-8", errors="replace"))
+            try:
+                for item in cutplace.rows(cid, path, on_error="yield"):
+                    if isinstance(item, Exception) and classify(item) != "DataError":
+                        problems.append("%s: rows(path) yields %s" % (what, classify(item)))
+            except Exception as error:  # noqa
+                if classify(error) != "DataError":
+                    problems.append("%s: rows(path) lets escape %s for data %r under CID %r" % (what, classify(error)[6:], text, rows))
+        finally:
+            core.cleanup(folder)
     if cid_outcome == "ok" and fmt in ("excel", "ods") and any(t["where"] == "data" for t in vec["targets"]):
         # the hostile text as a cell of a real spreadsheet file
         folder = core.workdir("c10sheet%d" % os.getpid())
@@ -195,6 +257,17 @@ def _job(job):
 
 def cli_job(job):
     """The command line on a CID file and a data file holding the hostile values: exit code 0..3, never 4."""
+    signal = _limits()
+    signal.alarm(60)
+    try:
+        return _cli_job_unguarded(job)
+    except _Exhausted as error:
+        return ["format %s, hostile %s: the command line: %s" % (job[0]["fmt"], job[0]["classes"], error)]
+    finally:
+        signal.alarm(0)
+
+
+def _cli_job_unguarded(job):
     vec, picks, folder = job
     from cutplace import applications
     fmt, rows, data = build(vec, picks)
@@ -285,6 +358,10 @@ def malformed_text_containers(report):
         "NUL character": "1,a\x00b\r\n",
         "lone carriage return inside an unquoted cell": "1,a\rb\r\n",
         "quote in the middle of an unquoted cell": '1,a"b"\r\n',
+        "line without any content": "\r\n",
+        "line with blanks only": "   \r\n",
+        "byte order mark in front of the line": "\ufeff1,a\r\n",
+        "byte order mark alone on the line": "\ufeff\r\n",
     }
     cid_rows = [["D", "Format", "delimited"], ["D", "Encoding", "utf-8"], ["F", "n", "", "", "", "Integer", "0...9"], ["F", "t", "", "X"]]
     fixed_rows = [["D", "Format", "fixed"], ["D", "Encoding", "utf-8"], ["D", "Line delimiter", "lf"], ["F", "n", "", "", "1", "Integer", "0...9"],
@@ -446,9 +523,28 @@ def run(tier, report):
     outcomes = core.parallel_map(_job, jobs, chunk=200)
     shapes = {}
 
+    def signature_of(job, problem):
+        """Known finding D28: MemoryError while reading fixed data under a field length of at least 2^31."""
+        vec, picks = job
+        if vec["fmt"] != "fixed" or "Cid.read(" in problem or not ("MemoryError" in problem or "the command line answers 4" in problem):
+            return None
+        for target, cls, pick in zip(vec["targets"], vec["classes"], picks):
+            if target["where"] == "cid" and list(target["cell"]) == ["F", "length"]:
+                text = HOSTILE[cls][pick % len(HOSTILE[cls])]
+                try:
+                    if int(text, 0) >= 2 ** 31:
+                        return "fixed-length-memory"
+                except ValueError:
+                    pass
+        return None
+
     def record(job, problems):
         vec, picks = job
         for problem in problems:
+            known = signature_of(job, problem)
+            if known is not None:
+                report.violation("c10", {"vec": vec, "picks": picks}, "ok | InterfaceError | DataError", None, problem, signature=known)
+                continue
             escaped = problem.split("lets escape ")[-1].split(":")[0] if "lets escape" in problem else problem.split(": ", 1)[1][:40]
             shape = (escaped, tuple(tuple(t["cell"]) + (t["type"],) for t in vec["targets"]))
             shapes[shape] = shapes.get(shape, 0) + 1
@@ -464,14 +560,14 @@ def run(tier, report):
             report.sample({"format": job[0]["fmt"], "hostile": [(t["where"], t["cell"], t["type"], HOSTILE[c][p % len(HOSTILE[c])][:30])
                                                                  for t, c, p in zip(job[0]["targets"], job[0]["classes"], job[1])]})
         record(job, problems)
-    # the command line (sequential: it configures global logging)
+    # the command line (in worker processes: it configures global logging, and the workers carry the resource limits)
     folder = core.workdir("c10cli")
     try:
         cli_jobs = [(vec, picks, folder) for vec, picks in jobs if vec["fmt"] in ("delimited", "fixed")]
         cli_jobs = cli_jobs if tier == "thorough" else rng.sample(cli_jobs, min(2500, len(cli_jobs)))
-        for job in cli_jobs:
+        for job, problems in zip(cli_jobs, core.parallel_map(cli_job, cli_jobs, chunk=50)):
             report.replayed += 1
-            record((job[0], job[1]), cli_job(job))
+            record((job[0], job[1]), problems)
     finally:
         core.cleanup(folder)
     corrupted_containers(report, tier)
